@@ -57,7 +57,7 @@ pub fn run(ctx: &Ctx) -> ! {
                 if checked >= 1 {
                     let key = format!("{}|{:?}", w.programs[*prog].source, w.programs[*prog].read_only);
                     let fresh = ev.distinct.insert(fnv(key.as_bytes()));
-                    if fresh && samples.len() < 3 && ev.distinct.len() % 307 == 1 {
+                    if fresh && samples.len() < 3 && (samples.is_empty() || ev.distinct.len() % 307 == 1) {
                         samples.push(serde_json::json!({"program": w.programs[*prog].source, "read_only": w.programs[*prog].read_only, "event": w.events[*event], "fault_plan": faults, "target_ops": o.target_ops}));
                     }
                 }
